@@ -430,8 +430,11 @@ where
         // Prevent allocating too much memory at once if `len` was crafted
         // to be very big. We will hit the end of file if it was during
         // reading, so I don’t think we need any additional measures?
+        //
+        // (Keep the cap small: pre-allocating 65536 entries would still be
+        // several megabytes for a map of a handful of items.)
         let mut res = HashMap::with_capacity(
-            cmp::max(len, 65536)
+            cmp::min(len, 1024)
         );
         
         for _ in 0..len {
